@@ -74,6 +74,8 @@ def run(ctx):
         BWo = rnd.uniform(0.02, 0.9) * fs
         cx = rs.randn(npol, n) + 1j * rs.randn(npol, n)
         cy = rs.randn(npol, n) + 1j * rs.randn(npol, n)
+        if npol == 2 and it % 4 == 1:
+            cx[1] = cx[0]                                   # twin signal rows, different noise rows
         mk = lambda s_, n_=None: protect(optical_signal(s_ if npol == 2 else s_[0], None if n_ is None else (n_ if npol == 2 else n_[0])))
         with deadline(120):
             Bx, By = BPF(mk(cx), BWo, order).signal, BPF(mk(cy), BWo, order).signal
@@ -91,6 +93,37 @@ def run(ctx):
             events.append({"kind": "shape", "same": bool(type(Bo) is optical_signal and Bo.n_pol == npol and Bo.signal.shape == mk(cx).signal.shape and Bo.noise is not None)})
             meta.append(("shape", "BPF"))
         ctx.case(("laws", order, n, npol, it % 3, BW / fs > 0.2), {"LPF/BPF laws": {"n": order, "BW/fs": BW / fs, "len": n, "npol": npol}})
+    # ------------------------------------------------------------------ narrow and steep filters, long and odd records, twin signal rows
+    from ..core import pollute_gv
+    extra = [(4096, 8, 0.004, 128), (50001, 4, 0.05, 16), (40001, 7, 0.002, 64), (65536 + 1, 2, 0.3, 8), (1000, 8, 0.002, 128)] + ([(131073, 8, 0.001, 128)] if T else [])
+    for it, (n, order, q, sps_) in enumerate(extra):
+        with warnings.catch_warnings():
+            warnings.simplefilter("ignore")
+            gv(sps=sps_, R=10e9)
+        pollute_gv(gv, it % 2 == 0)                     # user-defined globals do not matter when the arguments are explicit
+        fs = gv.fs
+        BW = q * fs
+        rs = np.random.RandomState(50 + it)
+        x, y = protect(rs.randn(n), rs.randn(n))
+        cx, cn = rs.randn(n) + 1j * rs.randn(n), rs.randn(2, n) + 1j * rs.randn(2, n)
+        with deadline(300):
+            law("constant-passes-unchanged", LPF(np.full(n, 2.5), BW, order).signal, np.full(n, 2.5), tol=10 ** 6)
+            law("constant-passes-unchanged", BPF(optical_signal(np.full(n, 1 - 2j)), BW, order).signal, np.full(n, 1 - 2j), tol=10 ** 6)
+            Fe = LPF(protect(electrical_signal(x, y)), BW, order)
+            events.append({"kind": "shape", "same": bool(type(Fe) is electrical_signal and Fe.len() == n and Fe.signal.shape == (n,) and Fe.noise.shape == (n,))})
+            meta.append(("shape", "LPF-long"))
+            law("signal-and-noise-filtered-alike", Fe.noise + 10, LPF(y, BW, order).signal + 10)
+            law("linear", LPF(2 * x - 3 * y, BW, order).signal + 10, 2 * Fe.signal - 3 * Fe.noise + 10)
+            # the two polarisations carry the same signal but different noise
+            twin = protect(optical_signal(np.array([cx, cx]), cn))
+            Bt = BPF(twin, BW, order)
+            events.append({"kind": "shape", "same": bool(type(Bt) is optical_signal and Bt.n_pol == 2 and Bt.signal.shape == (2, n) and Bt.noise.shape == (2, n))})
+            meta.append(("shape", "BPF-long"))
+            for r_ in (0, 1):
+                law("polarisations-independent", Bt.noise[r_] + 10, BPF(optical_signal(cn[r_]), BW, order).signal + 10)
+                law("polarisations-independent", Bt.signal[r_] + 10, BPF(optical_signal(cx), BW, order).signal + 10)
+        ctx.case(("extra", n, order, q), {"narrow/long": {"len": n, "n": order, "BW/fs": q}})
+    pollute_gv(gv, False)
     # ------------------------------------------------------------------ tone contract
     for it in range(160 if T else 16):
         fs = setgv(it)
